@@ -222,7 +222,8 @@ def known_findings(prop):
     """lines of KNOWN_FINDINGS.txt: `finding: property=<id> key=<mechanism> <text>`;
     `fixed:` lines suppress nothing.  Read-only at run time."""
     found = {}
-    path = os.path.join(VERIF, 'KNOWN_FINDINGS.txt')
+    # (VERIF_KNOWN_FINDINGS: another read-only file, used to re-evaluate historical trees)
+    path = os.environ.get('VERIF_KNOWN_FINDINGS') or os.path.join(VERIF, 'KNOWN_FINDINGS.txt')
     if not os.path.exists(path):
         return found
     for line in open(path):
